@@ -377,6 +377,19 @@ def c08(obj, kind, case, cfg, rec):
         raw = ob.raw_feature_of(obj, f)
         missing = [v for v in pd.unique(case['X'][raw]) if ob.group_of(obj, f, v) is None]
         rec('C08:fit#post.values_orders_cover_training_values', not missing, 'feature %s: training values %r have no group' % (f, missing[:5]), dict(feature=f))
+        if f in obj.quantitative_features:
+            # ordered partition of a quantitative feature: leaders are upper bounds in increasing order ending with +inf; every numeric member of a group is <= its leader;
+            # the missing-value marker leads no numeric value (grouped missing values are MEMBERS of a numeric group)
+            NUM = (int, float, np.integer, np.floating); order = obj.values_orders[f]; lead = [l for l in order if l != obj.str_nan]; errs = []
+            if not all(isinstance(l, NUM) and not isinstance(l, bool) for l in lead): errs.append('non-numeric leaders %r' % ([l for l in lead if not isinstance(l, NUM)][:3],))
+            else:
+                if any(not (a < b) for a, b in zip(lead, lead[1:])): errs.append('leaders not strictly increasing: %r' % (lead,))
+                if lead and lead[-1] != float('inf'): errs.append('last bound %r is not +inf' % (lead[-1],))
+                for l in lead:
+                    big = [m for m in order.content[l] if isinstance(m, NUM) and m > l]
+                    if big: errs.append('group of %r holds larger values %r' % (l, big[:3]))
+            if obj.str_nan in order.content and [m for m in order.content[obj.str_nan] if m != obj.str_nan]: errs.append('%r leads %r' % (obj.str_nan, order.content[obj.str_nan]))
+            rec('C08:fit#post.quantitative_order_is_increasing_and_led_by_upper_bounds', not errs, 'feature %s: %s' % (f, '; '.join(errs)), dict(feature=f))
     dropped = [f for f in ob.features_of(case) if f not in obj.features_casting and f not in feats]
     if dropped:
         a = outcome(lambda: obj.transform(case['X']))
